@@ -91,6 +91,25 @@ class Dct(K):
 
 
 @dataclass(frozen=True)
+class Kw(Dct):
+    """A dict of keyword arguments with known constant keys - `{"order": order}`, `{}` - as handed on with `**`.
+    Everywhere else it behaves like the plain dict it is; a field that is absent on some path carries NONE (the
+    keyword is then not passed and the parameter takes its default, None for the filter parameters)."""
+
+    fields: Tuple = field(default=())  # ((name, kind), ...) sorted by name
+
+    def __repr__(self):
+        return "KW{" + ", ".join(f"{n}={k!r}" for n, k in self.fields) + "}"
+
+
+KW_NAMES = ("order", "size", "up_to", "weight", "metadata", "time", "layer", "seed", "s", "keep_isolated_nodes", "return_mapping", "subhypergraph", "keep_nodes")
+
+
+def kw_of(fields: dict) -> "Kw":
+    return Kw(Atom("STR"), TOP, None, tuple(sorted(fields.items())))
+
+
+@dataclass(frozen=True)
 class Obj(K):
     cls: str  # bare class name of a repo class, or an external type name such as "LabelEncoder"
     extra: Optional[Tuple] = field(default=None)  # e.g. ("GRAPH", vertex kind)
@@ -189,6 +208,24 @@ def union(*ks: K) -> K:
         e = join_all([s.elem for s in sts])
         mem -= set(sts)
         mem.add(St(e))
+    kws = [m for m in mem if isinstance(m, Kw)]
+    empties = [m for m in mem if isinstance(m, Dct) and not isinstance(m, Kw) and m.key == EMPTY and m.tag is None]
+    if kws and (len(kws) > 1 or empties):
+        names = sorted({n for k in kws for n, _ in k.fields})
+        merged = {}
+        for n in names:
+            parts = []
+            for k in kws:
+                d = dict(k.fields)
+                parts.append(d.get(n, NONE))
+            if empties:
+                parts.append(NONE)
+            merged[n] = join_all(parts)
+        mem -= set(kws)
+        mem -= set(empties)
+        mem.add(kw_of(merged))
+        if len(mem) == 1:
+            return next(iter(mem))
     dcts = [m for m in mem if isinstance(m, Dct)]
     tags = {d.tag for d in dcts}
     if len(dcts) > 1 and not (len(tags) > 1 and None not in tags):
